@@ -29,7 +29,7 @@ add("C06","exploration","runtime monitor: full-state digest before/after every r
     T, "3/C06")
 add("C07","fault_enumeration","runtime monitor: crash (sentinel panic + LoadMint) and storage-fault injection at every DB/LN call of every scenario, followed by an adversarial client follow-up judged for safety/durability/atomicity",
     "For mint (also for a quote whose one-second invoice was paid in time and has lapsed), swap, melt with each Lightning outcome, pending-melt resolution, melt and swap of inputs that were spent before, runtime and start-up rotation: a trace run counts the n boundaries, then k=0..n are each crashed and faulted; after restart the harness's own client checks states, restores, re-spends and re-mints and computes realisable value vs. value held before, once re-sending the interrupted request and once going straight for what can be realised; quote and input states must tell one story afterwards.",
-    T+" A crash is simulated in-process at call boundaries (sentinel panic, instance abandoned, LoadMint on the same directory; no transaction is open at a boundary); start-up rotation is covered through the RotateKeyset it calls. Nine genuine windows that need multi-table transactions are listed as known findings.", "3/C07")
+    T+" A crash is simulated in-process at call boundaries (sentinel panic, instance abandoned, LoadMint on the same directory; no transaction is open at a boundary); start-up rotation is covered through the RotateKeyset it calls. Storage errors also strike in the middle of multi-row writes (a trigger aborts the second row). Nine genuine windows that need multi-table transactions are listed as known findings.", "3/C07")
 add("C08","exploration","runtime monitor: byte-level inspection of every HTTP request body of real wallets against all blinding factors (and their public points), output secrets and mint-issued signature data known from the store proxy, the transport record and an independent NUT-13 derivation",
     "Two real wallets and 1-2 real mints in one process over an in-process transport; histories over every wallet operation path; each request body is searched for every known r (hex, case-insensitive), for any JSON key r, and for output secrets before the proof is spent; one blinding factor under two secrets, a secret that is itself a blinding factor, the public point r*G of a known blinding factor, and any DLEQ e / s or C_ that a mint has handed out and that comes back in a request are flagged; a directed sequence per history makes every kind of request once.",
     T, "3/C08")
@@ -43,10 +43,10 @@ add("C11","exploration","runtime differential monitor: repository derivations vs
     "HashToCurve, DeriveKeysetId, NUT-13 path/secret/blinding factor are compared with refcrypto on generated messages (length 0..600, multi-iteration ones), key sets in shuffled order, seeds/ids/counters incl. boundary values; the published NUT vectors anchor the reference.",
     "Trusted: crypto/sha256, crypto/hmac, math/big, the published vectors.", "3/C11")
 add("C12","exploration","runtime monitor: independent NUT-11 evaluator vs. VerifyP2PKLockedProof and real Mint.Swap/MeltTokens over the configuration x witness x position product",
-    "Accepted => authorised (one-directional), completeness for the library's own signing helpers; SIG_ALL rules checked through the real mint with really minted locked proofs (other JSON spellings of the secret included); wallet level: SendToPubkey with every tag combination redeemed by Wallet.Receive, and before that presented to the mint with witnesses of several classes, each verdict judged by the independent evaluator on the configuration the sender asked the library for.",
+    "Accepted => authorised, completeness for the library's own signing helpers and for locks past their locktime without refund keys (anyone may spend); locks whose locktime passes while the process runs; SIG_ALL rules checked through the real mint with really minted locked proofs (other JSON spellings of the secret included); wallet level: SendToPubkey with every tag combination redeemed by Wallet.Receive, and before that presented to the mint with witnesses of several classes, each verdict judged by the independent evaluator on the configuration the sender asked the library for.",
     T+" Lock times are +-10^6 s from now; repeated keys in a lock are not generated.", "3/C12")
 add("C13","exploration","runtime monitor: independent NUT-14 evaluator vs. VerifyHTLCProof and real Mint.Swap over the configuration x witness product, plus helper-produced witnesses",
-    "Same construction as C12 for hash locks; AddWitnessHTLC / AddWitnessHTLCToOutputs output must be accepted by the mint (malformed lock values never); wallet level: HTLCLockedProofs with every tag combination redeemed by Wallet.ReceiveHTLC, wrong preimage refused; before that the ecash is presented to the mint with witnesses of several classes (preimage alone, with a foreign key, with the listed co-signer), each verdict judged on the configuration the sender asked for.",
+    "Same construction as C12 for hash locks (incl. the completeness rule after the locktime and locktimes that pass during the run); AddWitnessHTLC / AddWitnessHTLCToOutputs output must be accepted by the mint (malformed lock values never); wallet level: HTLCLockedProofs with every tag combination redeemed by Wallet.ReceiveHTLC, wrong preimage refused; before that the ecash is presented to the mint with witnesses of several classes (preimage alone, with a foreign key, with the listed co-signer), each verdict judged on the configuration the sender asked for.",
     T, "3/C13")
 add("C14","exploration","runtime monitor: round-trip equality and totality (no panic, every accessor callable) over generated proof lists and decoder inputs",
     "NewTokenV3/V4 -> Serialize -> DecodeToken on generated proof lists and mint URLs of many shapes; DecodeToken/DecodeTokenV3/V4 and all accessors on prefixes, short strings, mutations, base64 of generated JSON/CBOR.",
@@ -61,10 +61,10 @@ add("C17","exploration","runtime monitor: wallet-world conservation and balance 
     "2-3 real wallets and 1-2 real mints; after every operation reported/pending balances, duplicate secrets, no-loss and conservation equations are evaluated from the byte-level transport record and mint-side states; a swap that leaves more at the mint than the fee the mint charges for its inputs is a loss. A directed sequence per history makes every kind of operation once; the listed finding is reproduced at every seed.",
     T, "3/C17")
 add("C18","exploration","runtime monitor: exact-amount and fee oracle on Wallet.Send over generated wallet contents, amounts, fee modes and fee rates",
-    "Harness-minted proofs of arbitrary denominations are placed in a real wallet store; every amount is sent in both fee modes; sum, fee for exactly those proofs, distinctness, mint-side state and the success premise are checked; also as the first operation after a rotation the wallet has not seen, and for sends issued at the same moment (thorough: that stage three more times under the race detector); one fixed store reproduces the listed finding at every seed.",
+    "Harness-minted proofs of arbitrary denominations are placed in a real wallet store; every amount is sent in both fee modes; sum, fee for exactly those proofs, distinctness, mint-side state and the success premise are checked; also as the first operation after a rotation the wallet has not seen, and for sends issued at the same moment (thorough: that stage three more times under the race detector); a refusal right after an unseen rotation is judged like any other; one fixed store reproduces the listed finding at every seed.",
     T, "3/C18")
 add("C19","exploration","runtime monitor: counter-reuse detection on every submitted B_ (independent NUT-13 mapping) and restore completeness vs. mint-side state, incl. wallet crash injection",
-    "Wallet histories, restore->continue->restore chains, and a crash at every store/HTTP boundary of mint/send/receive/melt followed by restore from the mnemonic.",
+    "Wallet histories (each starting with two mints of one wallet at the same moment), restore->continue->restore chains, and a crash at every store/HTTP boundary of mint/send/receive/melt followed by restore from the mnemonic.",
     T, "3/C19")
 add("C20","exploration","runtime monitor: NUT-shape validators, cause->code table, fault-to-generic-error and NUT-19 cache replay/near-replay assertions on the in-process HTTP handler",
     "Hand-built JSON through the real router; every endpoint outcome, every table row, fault at each boundary of each endpoint, byte-identical replays must be served without state-changing DB calls (also after 24 further swaps and mints have been answered) and near-replays must be executed.",
